@@ -465,6 +465,9 @@ pub fn check_state(obj: &Object, m: &Model) -> Result<StateStats, String> {
 		if pos.len() >= 2 {
 			// every way of consuming the lookup iterators must agree (nth, skip, step_by, count, last, size_hint)
 			queries += crate::monitor::check_iter(&format!("indexes_of({:?})", k), &|| obj.indexes_of(k), &pos)?;
+			queries += crate::monitor::check_iter_ord(&format!("indexes_of({:?})", k), &|| obj.indexes_of(k), &|i: usize| i)?;
+			queries += crate::monitor::check_iter_ord(&format!("get({:?})", k), &|| obj.get(k), &|v: &Value| v as *const Value as usize)?;
+			queries += crate::monitor::check_iter_ord(&format!("get_with_index({:?})", k), &|| obj.get_with_index(k), &|(i, _): (usize, &Value)| i)?;
 			let ptrs: Vec<usize> = pos.iter().map(|&i| &obj.entries()[i].value as *const Value as usize).collect();
 			queries += crate::monitor::check_iter_by(&format!("get({:?})", k), &|| obj.get(k), &|v: &Value| v as *const Value as usize, &ptrs)?;
 			let withidx: Vec<(usize, usize)> = pos.iter().map(|&i| (i, &obj.entries()[i] as *const Entry as usize)).collect();
